@@ -11,6 +11,11 @@ open GlueVerif.C10
 #print axioms reduce_partition_min
 #print axioms reduce_partition_max
 #print axioms reduce_partition_sum
+#print axioms spec_dtype_independent
+#print axioms spec_cell_reduce
+#print axioms accept_exact
+#print axioms stat_accepted_partial
+#print axioms accept_witness
 #print axioms hist_total
 #print axioms hist_bin
 #print axioms hist_bin_top
